@@ -28,6 +28,7 @@ type replayStats struct {
 	DriftEx    []string `json:"drift_examples"`
 	Panics     int      `json:"panics"`
 	Errors     int      `json:"errors"`
+	Refused    int      `json:"refused"` // -crossexit: behaviours whose (deliberately invalid) definition was refused at load
 	Nontrivial int      `json:"nontrivial"`
 }
 
@@ -67,6 +68,8 @@ func (lw *lineWriter) write(src string, v any, setSrc func(string)) {
 	lw.n++
 }
 
+var errDefinitionRefused = fmt.Errorf("definition refused")
+
 // runBehaviour drives the real engine through one behaviour. onCall is invoked after every engine call.
 func runBehaviour(b *Behaviour, opts *MatOpts, src string, onCall func(k int, c Call, line *TLine, s flows.Session, sp flows.Sprint)) (err error) {
 	resetGenerators(1)
@@ -85,6 +88,13 @@ func runBehaviour(b *Behaviour, opts *MatOpts, src string, onCall func(k int, c 
 	sa, err := loadAssets(matAssets(b, opts, gone))
 	if err != nil {
 		return fmt.Errorf("assets: %w", err)
+	}
+	if opts.CrossExit {
+		for f := 1; f <= b.NFlows; f++ {
+			if _, err := sa.Flows().Get(assets.FlowUUID(flowUUID(f))); err != nil {
+				return errDefinitionRefused
+			}
+		}
 	}
 	eng := newEngine(b.MaxSteps, b.MaxResumes)
 	tr := newTracker()
@@ -313,6 +323,10 @@ func engReplay(args []string) error {
 			return fmt.Errorf("line %d: %w", i, err)
 		}
 		opts.insp = nil // definitions differ per behaviour
+		// variant "crossexit": every wait-less router gets a category that names an exit of another node; a behaviour whose
+		// definition is refused is counted, the others run (without comparison with the specification, which knows no such flows)
+		cross := b.Variant == "crossexit"
+		opts.CrossExit = cross
 		st.Behaviours++
 		src := fmt.Sprintf("%s#%d", *in, i)
 		nwaits := 0
@@ -324,11 +338,11 @@ func engReplay(args []string) error {
 			if line.Status == "waiting" {
 				nwaits++
 			}
-			if k < len(b.Exps) {
+			if k < len(b.Exps) && !cross {
 				line.HasExp, line.ExpErr = true, b.Exps[k].Err
 			}
 			lw.write(src, line, func(s string) { line.Src = s })
-			if k < len(b.Exps) {
+			if k < len(b.Exps) && !cross {
 				got := modelProj(line, b.NNodes)
 				if pdw != nil {
 					gp, ep := pathsOf(got), pathsOf(b.Exps[k])
@@ -349,7 +363,9 @@ func engReplay(args []string) error {
 				}
 			}
 		})
-		if err != nil {
+		if err == errDefinitionRefused {
+			st.Refused++
+		} else if err != nil {
 			st.Errors++
 			if len(st.DriftEx) < 5 {
 				st.DriftEx = append(st.DriftEx, fmt.Sprintf("%s: ERROR %v", src, err))
